@@ -77,6 +77,16 @@ static _Bool hx_convention(const TK *m, int c) {
   for (int r = 0; r < 4; r++) { _Bool ok = 1; for (int j = 0; j < 4; j++) if (seq[(r + j) % 4] != T[j]) ok = 0; if (ok) any = 1; }
   return any;
 }
+static int hx_adj_l(const TK *m, const int *H, int hf, int he) { int r = -1; for (int k = 0; k < 6; k++) if (H[k] != hf && spec_he_in_hf(m, H[k], he ^ 1)) r = H[k]; return r; }
+static _Bool hx_convention_list(const TK *m, const int *H) {
+  for (int k = 0; k < 6; k++) if (FVAL(m, H[k] >> 1) != 4) return 0;
+  for (int k = 0; k < 3; k++) if (hx_share_vertex(m, H[2 * k], H[2 * k + 1])) return 0;
+  int T[4] = {H[2], H[4], H[3], H[5]}; int seq[4];
+  for (int i = 0; i < 4; i++) seq[i] = hx_adj_l(m, H, H[0], spec_hf_he(m, H[0], i));
+  _Bool any = 0;
+  for (int r = 0; r < 4; r++) { _Bool ok = 1; for (int j = 0; j < 4; j++) if (seq[(r + j) % 4] != T[j]) ok = 0; if (ok) any = 1; }
+  return any;
+}
 static struct vec_VH hx_list8(const int *v) { struct vec_VH l; vec_VH_init(&l); for (int i = 0; i < 8; i++) { struct VH h; h.idx_ = v[i]; vec_VH_push_back(&l, h); } return l; }
 static void hx_two_cubes(HMESH *m) {
   tk_init(m);
@@ -85,89 +95,42 @@ static void hx_two_cubes(HMESH *m) {
   struct vec_VH la = hx_list8(A), lb = hx_list8(B);
   struct CH c0 = HexahedralMeshTopologyKernel__add_cell__std_vector_VH__r_bool(m, &la, 1);
   struct CH c1 = HexahedralMeshTopologyKernel__add_cell__std_vector_VH__r_bool(m, &lb, 1);
-  __CPROVER_assert(c0.idx_ == 0 && c1.idx_ == 1, "C16.two_cubes.both_cells_created_from_eight_vertices");
+  if (!(c0.idx_ == 0 && c1.idx_ == 1)) m->cells_.size = 0;      /* reported by the harness as a malformed scenario */
 }
 '''
-TWO_CUBES = '''
-void harness(void) {
-  HMESH hm; hx_two_cubes(&hm); TK *m = (TK *)&hm;
-  __CPROVER_assert(wf(m) && m->n_vertices_ == 12 && m->edges_.size == 20 && m->faces_.size == 11 && m->cells_.size == 2, "C16.two_cubes.well_formed_with_12_vertices_20_edges_11_faces_2_cells (the shared face is found, not duplicated)");
-  __CPROVER_assert(hx_convention(m, 0) && hx_convention(m, 1), "C16.two_cubes.cells_created_from_eight_vertices_follow_the_xf_xb_yf_yb_zf_zb_convention");
-  int c = nondet_int(); __CPROVER_assume(c == 0 || c == 1);
-  struct CH hc; hc.idx_ = c;
-  /* hex_vertices */
-  int seq[20]; int cnt = 0; int laps = nondet_int(); __CPROVER_assume(laps == 1 || laps == 2);
-  { @TYPE(hv_iter)@ it = HexahedralMeshTopologyKernel__hv_iter(&hm, hc, laps);
-    for (int s = 0; s < 20; s++) if (it.valid_) { seq[cnt] = it.cur_handle_.idx_; cnt++; @INC(hv_iter)@(&it); } }
-  __CPROVER_assert(cnt == 8 * laps, "C16.hex_vertices.eight_vertices_per_lap");
-  _Bool distinct = 1; for (int i = 0; i < 8; i++) for (int j = 0; j < 8; j++) if (i < j && seq[i] == seq[j]) distinct = 0;
-  __CPROVER_assert(distinct, "C16.hex_vertices.eight_distinct_vertices");
-  int h0 = CHF(m, c, 0), h1 = CHF(m, c, 1);
-  __CPROVER_assert(seq[0] == HEFROM(m, spec_hf_he(m, h0, 0)) && seq[1] == spec_hf_vertex(m, h0, 3) && seq[2] == spec_hf_vertex(m, h0, 2) && seq[3] == spec_hf_vertex(m, h0, 1), "C16.hex_vertices.first_four_are_the_first_halfface_against_its_cyclic_order_from_the_source_of_its_first_halfedge");
-  _Bool back = 1; for (int i = 4; i < 8; i++) if (!spec_vertex_in_hf(m, h1, seq[i])) back = 0;
-  __CPROVER_assert(back, "C16.hex_vertices.last_four_are_the_opposite_halffaces_vertices");
-  __CPROVER_assert(spec_live_he(m, seq[0], seq[4]) && spec_live_he(m, seq[1], seq[7]) && spec_live_he(m, seq[2], seq[6]) && spec_live_he(m, seq[3], seq[5]), "C16.hex_vertices.pattern_positions_0_4__1_7__2_6__3_5_are_joined_by_edges");
-  __CPROVER_assert(cnt < 16 || (seq[8] == seq[0] && seq[15] == seq[7]), "C16.hex_vertices.second_lap_repeats");
-  /* sheets */
-  unsigned char dir = nondet_uchar(); __CPROVER_assume(dir < 6);
-  int expect[4]; int ne = 0;
-  for (int k = 0; k < 6; k++) if (k / 2 != dir / 2) { int d = ICELL(m, CHF(m, c, k) ^ 1); if (d >= 0) { _Bool dup = 0; for (int i = 0; i < 4; i++) if (i < ne && expect[i] == d) dup = 1; if (!dup) { expect[ne] = d; ne++; } } }
-  int got[8]; int ng = 0;
-  { @TYPE(csc_iter)@ it = HexahedralMeshTopologyKernel__csc_iter(&hm, hc, dir, 1);
-    __CPROVER_assert(it.valid_ == (ne > 0), "C16.cell_sheet_cells.valid_exactly_when_there_is_a_neighbour_across_an_orthogonal_halfface");
-    for (int s = 0; s < 8; s++) if (it.valid_) { got[ng] = it.cur_handle_.idx_; ng++; @INC(csc_iter)@(&it); } }
-  _Bool sameset = ng == ne; for (int i = 0; i < 4; i++) if (i < ne) { _Bool f = 0; for (int j = 0; j < 8; j++) if (j < ng && got[j] == expect[i]) f = 1; if (!f) sameset = 0; }
-  __CPROVER_assert(sameset, "C16.cell_sheet_cells.exactly_the_neighbours_across_the_four_halffaces_orthogonal_to_the_direction");
-  int k0 = nondet_int(); __CPROVER_assume(0 <= k0 && k0 < 6);
-  int ref = CHF(m, c, k0); struct HFH href; href.idx_ = ref;
-  int exh[8]; int nx = 0;
-  for (int d = 0; d < 2; d++) { _Bool isn = 0; for (int k = 0; k < 6; k++) if (k / 2 != k0 / 2 && ICELL(m, CHF(m, c, k) ^ 1) == d) isn = 1;
-    if (isn) for (int k = 0; k < 6; k++) { int g = CHF(m, d, k); _Bool common = 0; for (int i = 0; i < 4; i++) if (spec_he_in_hf(m, g, spec_hf_he(m, ref ^ 1, i))) common = 1; if (common) { exh[nx] = g; nx++; } } }
-  int goth[8]; int nh = 0;
-  { @TYPE(hfshf_iter)@ it = HexahedralMeshTopologyKernel__hfshf_iter(&hm, href, 1);
-    for (int s = 0; s < 8; s++) if (it.valid_) { goth[nh] = it.cur_handle_.idx_; nh++; @INC(hfshf_iter)@(&it); } }
-  _Bool same2 = nh == nx; for (int i = 0; i < 8; i++) if (i < nx && i < nh && goth[i] != exh[i]) same2 = 0;
-  __CPROVER_assert(same2, "C16.halfface_sheet_halffaces.the_matching_halffaces_of_the_sheet_neighbours");
-  /* orientation helpers agree with the layout on real cells */
-  __CPROVER_assert(HexahedralMeshTopologyKernel__orientation(&hm, href, hc) == k0 && HexahedralMeshTopologyKernel__opposite_halfface_handle_in_cell(&hm, href, hc).idx_ == CHF(m, c, k0 ^ 1), "C16.orientation.agrees_with_the_layout_on_real_cells");
-}
-'''
+TWO_CUBES_PARTS = {'convention': 'void harness(void) {\n  TK m0; { static const int W0[] = {SHAPE_W}; int aa[4]; unwitness(W0, &m0, aa); }      /* the state built natively by hx_two_cubes (real add_cell(8 vertices), extracted text) */\n  HMESH hm = *(HMESH *)&m0; TK *m = (TK *)&hm;\n  int c = nondet_int(); __CPROVER_assume(c == 0 || c == 1);\n  struct CH hc; hc.idx_ = c;\n  __CPROVER_assert(wf(m) && m->n_vertices_ == 12 && m->edges_.size == 20 && m->faces_.size == 11 && m->cells_.size == 2, "C16.two_cubes.well_formed_with_12_vertices_20_edges_11_faces_2_cells (the shared face is found, not duplicated)");\n  __CPROVER_assert(hx_convention(m, 0) && hx_convention(m, 1), "C16.two_cubes.cells_created_from_eight_vertices_follow_the_xf_xb_yf_yb_zf_zb_convention");\n  int k0 = nondet_int(); __CPROVER_assume(0 <= k0 && k0 < 6);\n  int ref = CHF(m, c, k0); struct HFH href; href.idx_ = ref;\n  __CPROVER_assert(HexahedralMeshTopologyKernel__orientation(&hm, href, hc) == k0 && HexahedralMeshTopologyKernel__opposite_halfface_handle_in_cell(&hm, href, hc).idx_ == CHF(m, c, k0 ^ 1), "C16.orientation.agrees_with_the_layout_on_real_cells");\n}\n', 'hex_vertices': 'void harness(void) {\n  TK m0; { static const int W0[] = {SHAPE_W}; int aa[4]; unwitness(W0, &m0, aa); }      /* the state built natively by hx_two_cubes (real add_cell(8 vertices), extracted text) */\n  HMESH hm = *(HMESH *)&m0; TK *m = (TK *)&hm;\n  int c = nondet_int(); __CPROVER_assume(c == 0 || c == 1);\n  struct CH hc; hc.idx_ = c;\n  int seq[20]; int cnt = 0; int laps = nondet_int(); __CPROVER_assume(laps == 1 || laps == 2);\n  { @TYPE(hv_iter)@ it = HexahedralMeshTopologyKernel__hv_iter(&hm, hc, laps);\n    for (int s = 0; s < 20; s++) if (it.valid_) { seq[cnt] = it.cur_handle_.idx_; cnt++; @INC(hv_iter)@(&it); } }\n  __CPROVER_assert(cnt == 8 * laps, "C16.hex_vertices.eight_vertices_per_lap");\n  _Bool distinct = 1; for (int i = 0; i < 8; i++) for (int j = 0; j < 8; j++) if (i < j && seq[i] == seq[j]) distinct = 0;\n  __CPROVER_assert(distinct, "C16.hex_vertices.eight_distinct_vertices");\n  int h0 = CHF(m, c, 0), h1 = CHF(m, c, 1);\n  __CPROVER_assert(seq[0] == HEFROM(m, spec_hf_he(m, h0, 0)) && seq[1] == spec_hf_vertex(m, h0, 3) && seq[2] == spec_hf_vertex(m, h0, 2) && seq[3] == spec_hf_vertex(m, h0, 1), "C16.hex_vertices.first_four_are_the_first_halfface_against_its_cyclic_order_from_the_source_of_its_first_halfedge");\n  _Bool back = 1; for (int i = 4; i < 8; i++) if (!spec_vertex_in_hf(m, h1, seq[i])) back = 0;\n  __CPROVER_assert(back, "C16.hex_vertices.last_four_are_the_opposite_halffaces_vertices");\n  __CPROVER_assert(spec_live_he(m, seq[0], seq[4]) && spec_live_he(m, seq[1], seq[7]) && spec_live_he(m, seq[2], seq[6]) && spec_live_he(m, seq[3], seq[5]), "C16.hex_vertices.pattern_positions_0_4__1_7__2_6__3_5_are_joined_by_edges");\n  __CPROVER_assert(cnt < 16 || (seq[8] == seq[0] && seq[15] == seq[7]), "C16.hex_vertices.second_lap_repeats");\n}\n', 'cell_sheet': 'void harness(void) {\n  TK m0; { static const int W0[] = {SHAPE_W}; int aa[4]; unwitness(W0, &m0, aa); }      /* the state built natively by hx_two_cubes (real add_cell(8 vertices), extracted text) */\n  HMESH hm = *(HMESH *)&m0; TK *m = (TK *)&hm;\n  int c = nondet_int(); __CPROVER_assume(c == 0 || c == 1);\n  struct CH hc; hc.idx_ = c;\n  unsigned char dir = nondet_uchar(); __CPROVER_assume(dir < 6);\n  int expect[4]; int ne = 0;\n  for (int k = 0; k < 6; k++) if (k / 2 != dir / 2) { int d = ICELL(m, CHF(m, c, k) ^ 1); if (d >= 0) { _Bool dup = 0; for (int i = 0; i < 4; i++) if (i < ne && expect[i] == d) dup = 1; if (!dup) { expect[ne] = d; ne++; } } }\n  int got[8]; int ng = 0;\n  { @TYPE(csc_iter)@ it = HexahedralMeshTopologyKernel__csc_iter(&hm, hc, dir, 1);\n    __CPROVER_assert(it.valid_ == (ne > 0), "C16.cell_sheet_cells.valid_exactly_when_there_is_a_neighbour_across_an_orthogonal_halfface");\n    for (int s = 0; s < 8; s++) if (it.valid_) { got[ng] = it.cur_handle_.idx_; ng++; @INC(csc_iter)@(&it); } }\n  _Bool sameset = ng == ne; for (int i = 0; i < 4; i++) if (i < ne) { _Bool f = 0; for (int j = 0; j < 8; j++) if (j < ng && got[j] == expect[i]) f = 1; if (!f) sameset = 0; }\n  __CPROVER_assert(sameset, "C16.cell_sheet_cells.exactly_the_neighbours_across_the_four_halffaces_orthogonal_to_the_direction");\n}\n', 'halfface_sheet': 'void harness(void) {\n  TK m0; { static const int W0[] = {SHAPE_W}; int aa[4]; unwitness(W0, &m0, aa); }      /* the state built natively by hx_two_cubes (real add_cell(8 vertices), extracted text) */\n  HMESH hm = *(HMESH *)&m0; TK *m = (TK *)&hm;\n  int c = nondet_int(); __CPROVER_assume(c == 0 || c == 1);\n  struct CH hc; hc.idx_ = c;\n  int k0 = nondet_int(); __CPROVER_assume(0 <= k0 && k0 < 6);\n  int ref = CHF(m, c, k0); struct HFH href; href.idx_ = ref;\n  int exh[8]; int nx = 0;\n  for (int d = 0; d < 2; d++) { _Bool isn = 0; for (int k = 0; k < 6; k++) if (k / 2 != k0 / 2 && ICELL(m, CHF(m, c, k) ^ 1) == d) isn = 1;\n    if (isn) for (int k = 0; k < 6; k++) { int g = CHF(m, d, k); _Bool common = 0; for (int i = 0; i < 4; i++) if (spec_he_in_hf(m, g, spec_hf_he(m, ref ^ 1, i))) common = 1; if (common) { exh[nx] = g; nx++; } } }\n  int goth[8]; int nh = 0;\n  { @TYPE(hfshf_iter)@ it = HexahedralMeshTopologyKernel__hfshf_iter(&hm, href, 1);\n    for (int s = 0; s < 8; s++) if (it.valid_) { goth[nh] = it.cur_handle_.idx_; nh++; @INC(hfshf_iter)@(&it); } }\n  _Bool same2 = nh == nx; for (int i = 0; i < 8; i++) if (i < nx && i < nh && goth[i] != exh[i]) same2 = 0;\n  __CPROVER_assert(same2, "C16.halfface_sheet_halffaces.the_matching_halffaces_of_the_sheet_neighbours");\n}\n'}
 PERMS = '''
 void harness(void) {
-  HMESH base; tk_init(&base);
-  for (int i = 0; i < 8; i++) TopologyKernel__add_vertex((TK *)&base);
-  static const int F[6][4] = {{3,2,1,0},{7,6,5,4},{1,2,6,7},{4,5,3,0},{1,7,4,0},{2,3,5,6}};
-  int H[6];
-  for (int f = 0; f < 6; f++) H[f] = 2 * shape_face((TK *)&base, 4, F[f][0], F[f][1], F[f][2], F[f][3]).idx_;
-  int first = nondet_int(); __CPROVER_assume(0 <= first && first < 6);      /* which halfface comes first: symbolic; the order of the other five: enumerated */
-  int checked = 0;
+  TK m0; { static const int W0[] = {SHAPE_W}; int aa[4]; unwitness(W0, &m0, aa); }      /* eight vertices and the six quads of a cube, built natively through add_face(vertices) */
+  HMESH hm = *(HMESH *)&m0; TK *m = (TK *)&hm;
+  int H[6]; for (int f = 0; f < 6; f++) H[f] = 2 * f;
   static const int P5[120][5] = {%(P5)s};
-  for (int q = %(QLO)d; q < %(QHI)d; q++) {
-    HMESH hm = HexahedralMeshTopologyKernel__copy(&base); TK *m = (TK *)&hm;
-    TK o = TopologyKernel__copy(m);
-    int L[6]; L[0] = H[first]; for (int i = 0; i < 5; i++) { int j = P5[q][i]; L[i + 1] = H[j < first ? j : j + 1]; }
-    struct vec_HFH l; vec_HFH_init(&l); for (int i = 0; i < 6; i++) { struct HFH h; h.idx_ = L[i]; vec_HFH_push_back(&l, h); }
-    _Bool conv_in = HexahedralMeshTopologyKernel__check_halfface_ordering(&hm, &l);
-    struct CH r = HexahedralMeshTopologyKernel__add_cell__std_vector_HFH_bool(&hm, l, 1);
-    if (r.idx_ >= 0) {
-      __CPROVER_assert(r.idx_ == 0 && m->cells_.size == 1 && wf(m), "C16.add_cell_permuted.accepted_cell_is_appended_and_the_mesh_stays_well_formed");
-      __CPROVER_assert(hx_convention(m, 0), "C16.add_cell_permuted.accepted_cell_is_stored_in_the_convention_order");
-      _Bool perm = 1; for (int i = 0; i < 6; i++) { int cntl = 0; for (int k = 0; k < 6; k++) if (CHF(m, 0, k) == L[i]) cntl++; if (cntl != 1) perm = 0; }
-      __CPROVER_assert(perm, "C16.add_cell_permuted.stored_list_is_a_reordering_of_the_given_halffaces");
-      _Bool kept = 1; for (int i = 0; i < 6; i++) if (CHF(m, 0, i) != L[i]) kept = 0;
-      __CPROVER_assert(!conv_in || kept, "C16.add_cell_permuted.a_list_already_in_convention_order_is_stored_unchanged");
-      __CPROVER_assert(CHF(m, 0, 0) == L[0], "C16.add_cell_permuted.the_first_halfface_stays_first");
-    } else {
-      __CPROVER_assert(same_state(&o, m), "C16.add_cell_permuted.rejection_leaves_the_mesh_unchanged");
-    }
-    /* check_halfface_ordering agrees with the convention predicate evaluated on the list itself */
-    { HMESH t2 = HexahedralMeshTopologyKernel__copy(&base); struct vec_HFH l2; vec_HFH_init(&l2); for (int i = 0; i < 6; i++) { struct HFH h; h.idx_ = L[i]; vec_HFH_push_back(&l2, h); }
-      struct CH r2 = TopologyKernel__add_cell((TK *)&t2, l2, 0);
-      __CPROVER_assert(conv_in == hx_convention((TK *)&t2, r2.idx_), "C16.check_halfface_ordering.true_exactly_for_lists_in_convention_order"); }
-    __CPROVER_assert(r.idx_ >= 0, "C16.add_cell_permuted.every_reordering_of_a_valid_hexahedron_is_accepted");
-    checked++;
-  }
-  __CPROVER_assert(checked == %(QHI)d - %(QLO)d, "C16.add_cell_permuted.all_orders_enumerated");
+  int first = ENUM_FIRST;
+  int q = ENUM_Q;
+  int L[6]; L[0] = H[first]; for (int i = 0; i < 5; i++) { int j = P5[q][i]; L[i + 1] = H[j < first ? j : j + 1]; }
+  struct vec_HFH l; vec_HFH_init(&l); for (int i = 0; i < 6; i++) { struct HFH h; h.idx_ = L[i]; vec_HFH_push_back(&l, h); }
+  _Bool conv_in = HexahedralMeshTopologyKernel__check_halfface_ordering(&hm, &l);
+  COVER(1, "reachable"); COVER_END;
+  __CPROVER_assert(conv_in == hx_convention_list(m, L), "C16.check_halfface_ordering.true_exactly_for_lists_in_the_xf_xb_yf_yb_zf_zb_convention");
+  base_calls = 0;
+  struct CH r = HexahedralMeshTopologyKernel__add_cell__std_vector_HFH_bool(&hm, l, 1);
+  __CPROVER_assert(base_calls == 1 && base_n == 6 && base_flag == 1 && r.idx_ == 77, "C16.add_cell_permuted.every_reordering_of_a_valid_hexahedron_is_handed_to_the_general_add_cell_once_with_the_topology_check_on");
+  _Bool perm = 1; for (int i = 0; i < 6; i++) { int cntl = 0; for (int k = 0; k < 6; k++) if (base_list[k] == L[i]) cntl++; if (cntl != 1) perm = 0; }
+  __CPROVER_assert(perm, "C16.add_cell_permuted.the_list_handed_on_is_a_reordering_of_the_given_halffaces");
+  __CPROVER_assert(hx_convention_list(m, base_list), "C16.add_cell_permuted.the_list_handed_on_is_in_convention_order");
+  _Bool kept = 1; for (int i = 0; i < 6; i++) if (base_list[i] != L[i]) kept = 0;
+  __CPROVER_assert(!conv_in || kept, "C16.add_cell_permuted.a_list_already_in_convention_order_is_handed_on_unchanged");
+  __CPROVER_assert(base_list[0] == L[0], "C16.add_cell_permuted.the_first_halfface_stays_first");
+}
+'''
+PERM_STUBS = {'OpenVolumeMesh::TopologyKernel::add_cell': '{ base_calls++; base_n = (int)_halffaces.size; for (int i = 0; i < 6; i++) base_list[i] = (unsigned long)i < _halffaces.size ? _halffaces.data[i].idx_ : -7; base_flag = _topologyCheck; struct CH r; r.idx_ = 77; return r; }'}
+PERM_PRE = 'int base_calls; int base_list[6]; int base_n; _Bool base_flag;\n'
+static_cube = '''
+static void hx_cube_faces(HMESH *m) {
+  tk_init(m);
+  for (int i = 0; i < 8; i++) TopologyKernel__add_vertex((TK *)m);
+  static const int F[6][4] = {{3,2,1,0},{7,6,5,4},{1,2,6,7},{4,5,3,0},{1,7,4,0},{2,3,5,6}};
+  for (int f = 0; f < 6; f++) shape_face((TK *)m, 4, F[f][0], F[f][1], F[f][2], F[f][3]);
 }
 '''
 _base_hex = obligations
@@ -178,14 +141,22 @@ def obligations():
     roots = [HK + '::' + f for f in ('hv_iter', 'csc_iter', 'hfshf_iter', 'orientation', 'opposite_halfface_handle_in_cell', 'check_halfface_ordering')] + \
             [(HK + '::add_cell', 'const std::vector<VertexHandle> &'), (HK + '::add_cell', 'std::vector<HalfFaceHandle>, bool')] + ROOTS_BUILD
     inc = ['wf.h', 'view.h', 'add_spec.h', 'query_spec.h', 'circ_spec.h', 'shapes.h']
-    obs.append(Ob(id='C16.two_cubes', props=['C16', 'C05'], quick_for=['C16'], tu='tethex', cfg='hex', tier='B', roots=roots, harness=TWO_CUBES, includes=inc, copies=[TK, HK], defines=dict(HEXDEFS),
-                  inits={'tk_init': HK}, preamble_after=HEXHELP, circ_class='HexahedralMeshTopologyKernel', unwind=60, unwind_start=14, timeout=3000,
-                  bounds=dict(scenario='two hexahedra sharing a face, built by add_cell(8 vertices)', symbolic='reference cell, laps, sheet direction, reference halfface'),
-                  note='two hexahedra built through the real add_cell(8 vertices): convention, hex_vertices pattern, sheet circulators against hand-written specifications'))
+    for part, h in TWO_CUBES_PARTS.items():
+        en = None
+        if part == 'hex_vertices':
+            h = h.replace('int c = nondet_int(); __CPROVER_assume(c == 0 || c == 1);', 'int c = ENUM_C;').replace('int laps = nondet_int(); __CPROVER_assume(laps == 1 || laps == 2);', 'int laps = ENUM_LAPS;'); en = [('ENUM_C', [0, 1]), ('ENUM_LAPS', [1, 2])]
+        if part == 'halfface_sheet':
+            h = h.replace('int c = nondet_int(); __CPROVER_assume(c == 0 || c == 1);', 'int c = ENUM_C;').replace('int k0 = nondet_int(); __CPROVER_assume(0 <= k0 && k0 < 6);', 'int k0 = ENUM_K;'); en = [('ENUM_C', [0, 1]), ('ENUM_K', range(6))]
+        obs.append(Ob(id='C16.two_cubes.' + part, props=['C16', 'C05'], quick_for=[], tu='tethex', cfg='hex', tier='B', roots=roots, harness=h, includes=inc, copies=[TK, HK], defines=dict(HEXDEFS),
+                      inits={'tk_init': HK}, preamble_after=HEXHELP, circ_class='HexahedralMeshTopologyKernel', unwind=50, unwind_start=12, timeout=3000, prebuild_shape=100, prebuild_call='hx_two_cubes((HMESH *)&m);', enum=en,
+                      bounds=dict(scenario='two hexahedra sharing a face, built natively by the extracted add_cell(8 vertices)', symbolic='reference cell, laps, sheet direction, reference halfface'),
+                      note='two hexahedra built through the real add_cell(8 vertices): %s against a hand-written specification' % part))
     P5 = ', '.join('{%d,%d,%d,%d,%d}' % p for p in itertools.permutations(range(5)))
-    for name, lo, hi, qf in (('a', 0, 30, ['C16']), ('b', 30, 60, []), ('c', 60, 90, []), ('d', 90, 120, [])):
-        obs.append(Ob(id='C16.add_cell_permuted.' + name, props=['C16'], quick_for=qf, tu='tethex', cfg='hex', tier='B', roots=roots, harness=PERMS % dict(P5=P5, QLO=lo, QHI=hi), includes=inc, copies=[TK, HK],
-                      defines=dict(HEXDEFS, LV=8, PV=8, LE=12, PE=12, LF=6, PF=6, LC=1, PC=1, LOUT=3, POUT=3, LINC=2, PINC=2, VSTD_CAP_DEFAULT=26), inits={'tk_init': HK}, preamble_after=HEXHELP, unwind=40, unwind_start=14, timeout=3000,
-                      bounds=dict(scenario='the six inner halffaces of one cube', orders='first halfface symbolic (6), the other five in the enumerated orders %d..%d of 120' % (lo, hi - 1)),
-                      note='add_cell(6 halffaces, topology check) and check_halfface_ordering for the orders %d..%d (of 120, times 6 symbolic choices of the first halfface) of a valid hexahedron\'s halffaces' % (lo, hi - 1)))
+    for first in range(6):
+        roots_perm = [r for r in roots if r != TK + '::add_cell']
+        obs.append(Ob(id='C16.add_cell_permuted.first%d' % first, props=['C16'], quick_for=[], tu='tethex', cfg='hex', tier='B', roots=roots_perm, harness=PERMS % dict(P5=P5), includes=inc, copies=[TK, HK],
+                      defines=dict(HEXDEFS, LV=8, PV=8, LE=12, PE=12, LF=6, PF=6, LC=1, PC=1, LOUT=3, POUT=3, LINC=2, PINC=2, VSTD_CAP_DEFAULT=26), inits={'tk_init': HK}, preamble_after=HEXHELP + static_cube, unwind=30, adaptive_unwind=True, unwind_start=5, timeout=900, covers=1, stubs=PERM_STUBS, preamble=PERM_PRE,
+                      prebuild_shape=101, prebuild_call='hx_cube_faces((HMESH *)&m);', enum=[('ENUM_FIRST', [first]), ('ENUM_Q', range(120))],
+                      bounds=dict(scenario='the six inner halffaces of one cube', orders='halfface %d first, the other five in all 120 orders (one CBMC run per order)' % first),
+                      note='hexahedral add_cell(6 halffaces, topology check) with the general add_cell as a recording stub, and check_halfface_ordering, for the 120 orders of a valid hexahedron\'s halffaces that start with halfface %d' % first))
     return obs
